@@ -3,6 +3,7 @@
 //! process (see engine::shard): sozu-lib keeps process-global state.
 
 pub mod h1;
+pub mod httplab;
 pub mod script;
 
 use std::{
